@@ -1,7 +1,8 @@
 #!/bin/bash
 # Developer aid: regression over all seeded changes: apply each patch to /repo, run the quick
 # check of the property it was written against, expect exit 1 with a VIOLATION line.
-# (Do not run while anything else builds from /repo.)
+# (Do not run while anything else builds from /repo; or give it a scratch clone:
+#   git clone -q /repo /dev/shm/sweep-repo; REPO=/dev/shm/sweep-repo MUT_OUT=/dev/shm/sweep-out ./seeded_sweep.sh; rm -rf /dev/shm/sweep-repo)
 cd /verif
 for d in seeded/C*/; do
   id=$(basename $d); prop=${id%%-*}
@@ -16,4 +17,4 @@ for d in seeded/C*/; do
     *) echo "MISSED  $id  $res" ;;
   esac
 done
-git -C /repo status --short | head -3
+git -C ${REPO:-/repo} status --short | head -3
